@@ -293,7 +293,8 @@ void SimpleDiscreteDistribution::restrictToConstraint(const ConstraintInterface&
   {
     map<size_t, vector<double>>::const_iterator itr = givenRanges_.find(i + 1);
     if (itr == givenRanges_.end())
-      getParameter_("V" + TextTools::toString(i + 1)).setConstraint(intMinMax_);
+      // own copy: the domain object is modified in place by later calls and is reached through the copies' parameters
+      getParameter_("V" + TextTools::toString(i + 1)).setConstraint(std::shared_ptr<ConstraintInterface>(intMinMax_->clone()));
     else
     {
       auto pc = getParameter_("V" + TextTools::toString(i + 1)).removeConstraint();
